@@ -343,6 +343,7 @@ def run(chk):
     _chainbuild_rule(chk, prog)
     _validatefirst_rule(chk, prog)
     _clearkeeps_rule(chk, prog)
+    _overwriteat_rule(chk, prog)
     from jv.report import must_fire
     must_fire(chk, "C04-ENSURESUM", _ensuresum_rule, "c04_ensuresum.c", ["bad_product", "bad_sum"])
 
@@ -910,3 +911,48 @@ def _clearkeeps_rule(chk, prog):
     else:
         chk.ok(rule, "janet_table_clear (via %s) never writes proto" % ", ".join(sorted(seen)))
     chk.floor(rule, 1)
+
+
+def _overwriteat_rule(chk, prog):
+    """buffer/push-at and buffer/format-at write at a position of an existing buffer.  The helper that does it grows
+    the buffer to position + length and copies - it never fills a gap.  A position past the current end therefore
+    exposes bytes the program never wrote; both callers have to refuse it (position in 0 .. count) before they call."""
+    rule = "C04-OVERWRITEAT"
+    chk.rule(rule, "every caller of buffer_overwrite_at has refused a position below 0 and a position beyond the buffer's count before the call")
+    tu = prog.tus["buffer.c"]
+    n = 0
+    for fn in tu.funcs.values():
+        for c in fn.calls("buffer_overwrite_at"):
+            idx = strip_casts(c.args[1])
+            if not is_ref(idx):
+                continue
+            n += 1
+            chk.instance(rule)
+            chk.analysed(fn)
+            counts = set(d.name for d in fn.nodes if d.k == "vardecl" and d.kids and any(y.k == "mem" and y.field == "count" for y in d.kids[0].walk()))
+            lower = upper = False
+            for x in fn.nodes:
+                if x.k != "if" or x.ln > c.ln or not any(y.k == "call" and y.callee in ("janet_panic", "janet_panicf") for y in x.kids[1].walk()):
+                    continue
+                for y in x.kids[0].walk():
+                    if y.k != "bin" or y.op not in ("<", ">", "<=", ">="):
+                        continue
+                    l, r = strip_casts(y.kids[0]), strip_casts(y.kids[1])
+                    op = y.op
+                    if is_ref(r) and r.name == idx.name and not (is_ref(l) and l.name == idx.name):
+                        l, r = r, l
+                        op = {"<": ">", ">": "<", "<=": ">=", ">=": "<="}[op]
+                    if not (is_ref(l) and l.name == idx.name):
+                        continue
+                    if op == "<" and r.v == 0:
+                        lower = True
+                    if op in (">", ">=") and (any(z.k == "mem" and z.field == "count" for z in r.walk()) or (is_ref(r) and r.name in counts)):
+                        upper = True
+            if lower and upper:
+                chk.ok(rule, "%s: `%s` confined to 0 .. count before the write" % (fn.name, idx.name))
+            else:
+                miss = " and ".join(m for m, ok in (("a negative position", lower), ("a position beyond the current count", upper)) if not ok)
+                chk.violation(rule, "buffer.c", fn.name, idx.name, c.loc,
+                              "%s calls buffer_overwrite_at with `%s` without having refused %s: the helper extends the buffer to position + length "
+                              "without filling the gap, so the call succeeds where it should raise and the buffer shows bytes nobody wrote" % (fn.name, idx.name, miss))
+    chk.floor(rule, 2, n)
